@@ -207,10 +207,10 @@ def p_oracle(prop, tier):
     if prop == "C01":
         # platform independence of the value: the same seeded inputs on a 32-bit target (32-bit limbs in the big-integer path),
         # executed by Miri for i686, must give the bits of the native x86_64 run (which the oracle judges)
-        cnt = str(int((60 if tier == "quick" else 1500) * common.budget_scale()))
+        cnt = str(int((40 if tier == "quick" else 1500) * common.budget_scale()))
         for c in (["default"] if tier == "quick" else ["default", "alloc", "compact"]):
-            jobs.append(Job("eng_mem", c, "rel", instr="miri-sb-i686", shards=2 if tier == "quick" else 4, budget=30000, args=["--max-evals", cnt, "--valid-only", "1"], timeout=1800 if tier == "quick" else 7200))
-            jobs.append(Job("eng_mem", c, "rel", shards=2 if tier == "quick" else 4, budget=30000, args=["--max-evals", cnt, "--valid-only", "1"], name="eng_mem-%s-rel-twin" % c))
+            jobs.append(Job("eng_mem", c, "rel", instr="miri-sb-i686", shards=2 if tier == "quick" else 4, budget=30000, args=["--max-evals", cnt, "--valid-only", "1", "--limb-max-digits", "100", "--max-digits", "330"], timeout=1800 if tier == "quick" else 7200))
+            jobs.append(Job("eng_mem", c, "rel", shards=2 if tier == "quick" else 4, budget=30000, args=["--max-evals", cnt, "--valid-only", "1", "--limb-max-digits", "100", "--max-digits", "330"], name="eng_mem-%s-rel-twin" % c))
     what = {
         "C01": "f64 inputs",
         "C02": "f32 inputs (incl. double-rounding probes: cases where rounding via f64 first gives another f32)",
@@ -795,7 +795,7 @@ def p_c08(prop, tier):
         vg = [("default", "rel", 3), ("alloc", "rel", 2), ("nostd+compact", "rel", 2)]
     jobs = []
     for (c, p, i, n) in cells:
-        a = ["--max-evals", str(count)]
+        a = ["--max-evals", str(count), "--limb-max-digits", "180"]
         j = Job("eng_mem", c, p, instr=i, shards=n, budget=30000, args=a, timeout=1800 if tier == "quick" else 7200)
         jobs.append(j)
         if not any(t.name == "eng_mem-%s-%s-twin" % (c.replace("+", "_"), p) and t.shards == n for t in jobs):
